@@ -34,16 +34,17 @@ theorem unlinkn_ofList (xs : List Nat) (i : Nat) (m : Mem) (h : i < xs.length) :
   unfold unlinkn
   by_cases h1 : i = 0
   · subst h1
+    simp only [if_true, ofList_nodes, Ptr.valid, h, decide_true, Mem.check_true, data_some, Ptr.pos, Option.getD_some,
+      bne_self_eq_false, Bool.false_eq_true, if_false, Ptr.next]
     by_cases h2 : 0 + 1 < xs.length <;>
-      simp only [h2, if_true, if_false, ofList, Chain.del, Ptr.shiftDel, h0, List.length_eraseIdx, h, reduceCtorEq,
-        Ptr.valid, decide_true, Mem.check_true, Chain.data, Ptr.next, Ptr.pos, Option.getD_some, bne_self_eq_false,
-        Bool.false_eq_true] <;>
-      ptr_arith2
+      simp only [h2, if_true, if_false, ofList, Chain.del, Ptr.shiftDel, h0, List.length_eraseIdx, h, reduceCtorEq] <;>
+      ptr_arith
   · have hne : ((some (i - 1) : Ptr) != none) = true := rfl
+    simp only [h1, if_false, hne, if_true, ofList_nodes, Ptr.valid, h, h5, decide_true, Mem.check_true, data_some, Ptr.pos,
+      Option.getD_some, Ptr.next]
     by_cases h2 : i + 1 < xs.length <;>
-      simp only [h1, h2, hne, h5, if_true, if_false, ofList, Chain.del, Ptr.shiftDel, h0, List.length_eraseIdx, h, reduceCtorEq,
-        Ptr.valid, decide_true, Mem.check_true, Chain.data, Ptr.next, Ptr.pos, Option.getD_some] <;>
-      ptr_arith2
+      simp only [h2, if_true, if_false, ofList, Chain.del, Ptr.shiftDel, h0, List.length_eraseIdx, h, reduceCtorEq] <;>
+      ptr_arith
 
 theorem addFirst_ofList (xs : List Nat) (x : Nat) (m : Mem) :
     addFirst (ofList xs) x m =
@@ -85,3 +86,181 @@ theorem addAt_ofList (xs : List Nat) (x i : Nat) (m : Mem) :
         simp [hi, Ptr.valid, h5, Ptr.pos, ofList, Chain.ins, Ptr.shiftIns, h0, List.length_insertIdx, Nat.le_of_lt h, h6, h4]
         omega
   · simp [h]
+
+theorem getNode_ofList_mem (xs : List Nat) (x : Nat) (h : x ∈ xs) :
+    ∃ i, getNode (ofList xs) x = (.ok, some i, if i = 0 then none else some (i - 1)) ∧ i < xs.length ∧
+      xs.getD i 0 = x ∧ xs.eraseIdx i = xs.erase x := by
+  obtain ⟨i, h1, h2, h3, h4⟩ := DList.findIdx?_eq_of_mem xs x h
+  refine ⟨i, ?_, h2, h3, h4⟩
+  have h0 : xs.length ≠ 0 := by omega
+  unfold getNode
+  rw [DList.find_head_ofList, h1]
+  have hh : (ofList xs).head = some 0 := by simp [ofList, h0]
+  simp only [reduceCtorEq, if_false, hh, Option.some.injEq, Ptr.prev]
+  by_cases hi : i = 0 <;> simp [hi]
+
+theorem getNode_ofList_not_mem (xs : List Nat) (x : Nat) (h : x ∉ xs) :
+    getNode (ofList xs) x = (.errValueNotFound, none, none) := by
+  unfold getNode
+  rw [DList.find_head_ofList, DList.findIdx?_none_of_not_mem xs x h]; simp
+
+theorem remove_ofList (xs : List Nat) (x : Nat) (m : Mem) :
+    remove (ofList xs) x m =
+      ((LSeq.remove xs x).1, (LSeq.remove xs x).2.1, ofList (LSeq.remove xs x).2.2,
+       if (LSeq.remove xs x).1 = .ok then m.free else m) := by
+  unfold remove LSeq.remove
+  by_cases h : x ∈ xs
+  · obtain ⟨i, h1, h2, h3, h4⟩ := getNode_ofList_mem xs x h
+    rw [h1]
+    simp only [bne_self_eq_false, Bool.false_eq_true, if_false, h, if_true]
+    rw [unlinkn_ofList _ _ _ h2, h3, h4]
+  · rw [getNode_ofList_not_mem xs x h]; simp [h]
+
+theorem removeAt_ofList (xs : List Nat) (i : Nat) (m : Mem) :
+    removeAt (ofList xs) i m =
+      ((LSeq.removeAt xs i).1, (LSeq.removeAt xs i).2.1, ofList (LSeq.removeAt xs i).2.2,
+       if (LSeq.removeAt xs i).1 = .ok then m.free else m) := by
+  unfold removeAt LSeq.removeAt
+  rw [getNodeAt_ofList]
+  by_cases h : i < xs.length
+  · simp only [h, if_true, bne_self_eq_false, Bool.false_eq_true, if_false]
+    rw [unlinkn_ofList _ _ _ h]
+  · simp [h]
+
+theorem removeFirst_ofList (xs : List Nat) (m : Mem) :
+    removeFirst (ofList xs) m =
+      ((LSeq.removeFirst xs).1, (LSeq.removeFirst xs).2.1, ofList (LSeq.removeFirst xs).2.2,
+       if (LSeq.removeFirst xs).1 = .ok then m.free else m) := by
+  unfold removeFirst
+  cases xs with
+  | nil => simp [LSeq.removeFirst]
+  | cons y ys =>
+    simp only [ofList_size, List.length_cons, Nat.add_one_ne_zero, if_false, ofList_head_cons]
+    have := unlinkn_ofList (y :: ys) 0 m (by simp)
+    simp only [if_true] at this
+    rw [this]; simp [LSeq.removeFirst]
+
+theorem removeLast_ofList (xs : List Nat) (m : Mem) :
+    removeLast (ofList xs) m =
+      ((LSeq.removeLast xs).1, (LSeq.removeLast xs).2.1, ofList (LSeq.removeLast xs).2.2,
+       if (LSeq.removeLast xs).1 = .ok then m.free else m) := by
+  unfold removeLast
+  cases xs with
+  | nil => simp [LSeq.removeLast]
+  | cons y ys =>
+    simp only [ofList_size, List.length_cons, Nat.add_one_ne_zero, if_false, getNodeAt_ofList, Nat.add_sub_cancel,
+      Nat.lt_add_one, if_true, bne_self_eq_false, Bool.false_eq_true]
+    rw [unlinkn_ofList _ _ _ (by simp)]
+    have h1 : (y :: ys)[ys.length]?.getD 0 = (y :: ys).getLast?.getD 0 := by
+      rw [List.getLast?_eq_getElem?]; simp
+    have h2 : (y :: ys).eraseIdx ys.length = (y :: ys).dropLast := List.eraseIdx_eq_dropLast (by simp)
+    simp only [LSeq.removeLast, List.getD_eq_getElem?_getD, List.getLastD_eq_getLast?, h1, h2]
+    simp
+
+theorem unlinkAllLoop_ofList (hd tl : Ptr) : ∀ (xs : List Nat) (k : Nat) (cb : List Nat) (m : Mem), xs.length ≤ k →
+    ∃ l', unlinkAllLoop k { nodes := xs, size := xs.length, head := hd, tail := tl }
+            (if xs.length = 0 then none else some 0) cb m = (l', cb ++ xs, Mem.freeN xs.length m) ∧
+          l'.nodes = [] ∧ l'.size = 0
+  | [], k, cb, m, _ => by cases k <;> simp [unlinkAllLoop, Mem.freeN]
+  | y :: ys, 0, cb, m, h => by simp at h
+  | y :: ys, k + 1, cb, m, h => by
+    simp only [List.length_cons, Nat.add_one_ne_zero, if_false, unlinkAllLoop, Ptr.valid, Nat.zero_lt_succ, decide_true,
+      Mem.check_true, Chain.data, Ptr.pos, Option.getD_some, Chain.del, List.eraseIdx_zero, List.tail_cons,
+      Nat.add_sub_cancel]
+    have hn : (Ptr.next (ys.length + 1) (some 0)).shiftDel 0 = if ys.length = 0 then none else some 0 := by
+      cases ys <;> simp [Ptr.next, Ptr.shiftDel]
+    rw [hn]
+    obtain ⟨l', e, h1, h2⟩ := unlinkAllLoop_ofList (hd.shiftDel 0) (tl.shiftDel 0) ys k (cb ++ [y]) m.free (by simpa using h)
+    refine ⟨l', ?_, h1, h2⟩
+    have hd0 : (y :: ys).getD 0 0 = y := rfl
+    rw [hd0, e]; simp [Mem.freeN]
+
+theorem removeAll_ofList (xs : List Nat) (m : Mem) :
+    removeAll (ofList xs) m =
+      ((LSeq.removeAll xs).1, (LSeq.removeAll xs).2.1, ofList (LSeq.removeAll xs).2.2, Mem.freeN xs.length m) := by
+  unfold removeAll unlinknAll LSeq.removeAll
+  cases xs with
+  | nil => simp [Mem.freeN]
+  | cons y ys =>
+    simp only [ofList_size, List.length_cons, Nat.add_one_ne_zero, if_false, ofList_nodes]
+    obtain ⟨l', e, h1, h2⟩ := unlinkAllLoop_ofList (ofList (y :: ys)).head (ofList (y :: ys)).tail (y :: ys)
+      (ys.length + 1) [] m (by simp)
+    have e' : unlinkAllLoop (ys.length + 1) (ofList (y :: ys)) (ofList (y :: ys)).head [] m =
+        (l', [] ++ (y :: ys), Mem.freeN (y :: ys).length m) := by
+      rw [← e]; simp [ofList]
+    rw [e']
+    cases l'
+    simp_all [ofList]
+
+theorem destroy_ofList (xs : List Nat) (m : Mem) :
+    destroy (ofList xs) m = Mem.freeN (xs.length + 1) m := by
+  unfold destroy
+  rw [removeAll_ofList, Mem.freeN_succ]
+
+theorem destroyCb_ofList (xs : List Nat) (m : Mem) :
+    destroyCb (ofList xs) m = (xs, Mem.freeN (xs.length + 1) m) := by
+  unfold destroyCb
+  rw [removeAll_ofList, Mem.freeN_succ]
+  cases xs <;> simp [LSeq.removeAll]
+
+theorem replaceAt_ofList (xs : List Nat) (x i : Nat) (m : Mem) :
+    replaceAt (ofList xs) x i m =
+      ((LSeq.replaceAt xs x i).1, (LSeq.replaceAt xs x i).2.1, ofList (LSeq.replaceAt xs x i).2.2, m) := by
+  unfold replaceAt LSeq.replaceAt
+  rw [getNodeAt_ofList]
+  by_cases h : i < xs.length
+  · have h0 : xs.length ≠ 0 := by omega
+    simp [h, Ptr.valid, data_some, Chain.setData, Ptr.pos, ofList, h0]
+  · simp [h]
+
+theorem getFirst_ofList (xs : List Nat) (m : Mem) :
+    getFirst (ofList xs) m = ((LSeq.getFirst xs).1, (LSeq.getFirst xs).2, m) := by
+  unfold getFirst
+  cases xs <;> simp [LSeq.getFirst, ofList, Ptr.valid, data_some]
+
+theorem getLast_ofList (xs : List Nat) (m : Mem) :
+    getLast (ofList xs) m = ((LSeq.getLast xs).1, (LSeq.getLast xs).2, m) := by
+  unfold getLast
+  cases xs with
+  | nil => simp [LSeq.getLast]
+  | cons y ys =>
+    have h1 : (y :: ys)[ys.length]?.getD 0 = (y :: ys).getLast?.getD 0 := by
+      rw [List.getLast?_eq_getElem?]; simp
+    simp only [LSeq.getLast, ofList, Ptr.valid, Chain.data, Ptr.pos, List.getD_eq_getElem?_getD, List.getLastD_eq_getLast?]
+    rw [← h1]; simp
+
+theorem getAt_ofList (xs : List Nat) (i : Nat) (m : Mem) :
+    getAt (ofList xs) i m = ((LSeq.getAt xs i).1, (LSeq.getAt xs i).2, m) := by
+  unfold getAt LSeq.getAt
+  rw [getNodeAt_ofList]
+  by_cases h : i < xs.length <;> simp [h, Ptr.valid, data_some]
+
+theorem contains_ofList (xs : List Nat) (x : Nat) : contains (ofList xs) x = LSeq.contains xs x := by
+  simp [contains, LSeq.contains]
+theorem containsValue_ofList (cmp : Nat → Nat → Int) (xs : List Nat) (x : Nat) :
+    containsValue cmp (ofList xs) x = LSeq.containsValue cmp xs x := by
+  simp [containsValue, LSeq.containsValue]
+theorem indexOf_ofList (xs : List Nat) (x : Nat) :
+    indexOf (ofList xs) x = LSeq.indexOf LSeq.cmpNum xs x := by
+  simp only [indexOf, LSeq.indexOf, forward_ofList]
+  have : (fun y => LSeq.cmpNum y x == 0) = (fun y => y == x) := by
+    funext y; unfold LSeq.cmpNum
+    by_cases h1 : y < x <;> by_cases h2 : x < y <;> simp [h1, h2] <;> omega
+  rw [this]
+  cases xs.findIdx? fun y => y == x <;> rfl
+theorem foreach_ofList (xs : List Nat) : foreach (ofList xs) = xs := by simp [foreach]
+
+theorem reverse_ofList (xs : List Nat) : reverse (ofList xs) = ofList xs.reverse := by
+  unfold reverse
+  by_cases h : xs.length < 2
+  · have : xs.reverse = xs := by
+      match xs, h with
+      | [], _ => rfl
+      | [a], _ => rfl
+    rw [this]
+    rcases (show xs.length = 0 ∨ xs.length = 1 by omega) with h' | h' <;> simp [h']
+  · have h0 : xs.length ≠ 0 := by omega
+    rw [if_neg (by
+      simp only [ofList_size, Bool.or_eq_true]
+      intro hc; rcases hc with hc | hc <;> (have := of_decide_eq_true hc; omega))]
+    simp [ofList, Chain.flip, Ptr.rev, Ptr.valid, h0, Nat.pos_of_ne_zero h0]
